@@ -28,7 +28,7 @@ RULE = ('a case = one generated executable program (units partly wrapped into fu
         'compiled; distinct by program text.')
 ASSUMPTIONS = ['purity flags come from the generator/ast (impure callees are known by name)',
                'inline equivalence claimed only for values without calls or mutable displays']
-SIZES = {'quick': (64, 40), 'thorough': (1200, 120)}
+SIZES = {'quick': (64, 40), 'thorough': (500, 120)}
 TIMEOUT = {'quick': 1500, 'thorough': 6 * 3600}
 
 
